@@ -10,7 +10,7 @@ hooks = [l.split()[0] for l in hook if 'verif hook' in l]
 m = {
  "version": 1,
  "setup_cmd": "cd /verif && export GOFLAGS=-mod=mod GOPROXY=off GOSUMDB=off GOTOOLCHAIN=local && mkdir -p bin && go build -o bin/ssajson ./cmd/ssajson",
- "hooks": {"guard": "verif", "enable": "go/packages is loaded with -tags verif (and verif,purego); the hook files are comment-only, the contracts in them are read as text",
+ "hooks": {"guard": "verif", "enable": "go/packages is loaded with -tags verif (and verif,purego); contracts_verif.go files are comment-only (the contracts in them are read as text); roundtrip_verif.go adds two uncalled functions composing Bytes and SetBytes, which carry the round-trip contracts of C05",
            "baseline_off_cmd": "cd /repo && GOFLAGS=-mod=mod GOPROXY=off GOSUMDB=off GOTOOLCHAIN=local go test -vet=off -count=1 ./...",
            "source_commits": hooks, "add_only": True},
  "engines": [{"name": "govc", "path": "/verif/govc", "serves_properties": sorted(pm.keys()),
